@@ -38,6 +38,10 @@ type c15Case struct {
 	Asserts  []*sExpr     `json:"asserts,omitempty"`
 	// ErrRules: rules (indices into G.Rules) that get the 'error' terminal at a position.
 	ErrRules map[int]int `json:"errrules,omitempty"`
+	// LA: rules (indices into G.Rules) that start with a lookahead `(?= A & !B)`; the entries are
+	// nonterminal symbols, negated ones as -1-symbol. A lookahead derives nothing, but the
+	// nonterminals it mentions are reachable through it.
+	LA map[int][]int `json:"la,omitempty"`
 }
 
 func genSExpr(t *rapid.T, g *gSpec, named int, depth int) *sExpr {
@@ -112,6 +116,24 @@ func c15Gen(t *rapid.T) c15Case {
 				continue
 			}
 			c.ErrRules[ri] = rapid.IntRange(0, len(g.Rules[ri].R)).Draw(t, "errPos")
+		}
+	}
+	if rapid.IntRange(0, 3).Draw(t, "lookaheads") == 0 && len(g.Rules) > 0 && base > g.T {
+		c.LA = map[int][]int{}
+		for n := rapid.IntRange(1, 2).Draw(t, "nla"); n > 0; n-- {
+			ri := rapid.IntRange(0, len(g.Rules)-1).Draw(t, "laRule")
+			if g.Rules[ri].L >= base {
+				continue
+			}
+			var preds []int
+			for k := rapid.IntRange(1, 2).Draw(t, "laPreds"); k > 0; k-- {
+				nt := rapid.IntRange(g.T, base-1).Draw(t, "laNT")
+				if rapid.Bool().Draw(t, "laNeg") {
+					nt = -1 - nt
+				}
+				preds = append(preds, nt)
+			}
+			c.LA[ri] = preds
 		}
 	}
 	return c
@@ -195,22 +217,34 @@ func (c *c15Case) render() string {
 	}
 	rules := c.rules()
 	var order []int
-	byLHS := map[int][]gRule{}
-	for _, r := range rules {
+	byLHS := map[int][]int{}
+	for i, r := range rules {
 		if _, ok := byLHS[r.L]; !ok {
 			order = append(order, r.L)
 		}
-		byLHS[r.L] = append(byLHS[r.L], r)
+		byLHS[r.L] = append(byLHS[r.L], i)
 	}
 	for _, lhs := range order {
 		fmt.Fprintf(&sb, "%s:\n", g.symName(lhs))
-		for k, r := range byLHS[lhs] {
+		for k, ri := range byLHS[lhs] {
+			r := rules[ri]
 			if k == 0 {
 				sb.WriteString("    ")
 			} else {
 				sb.WriteString("  | ")
 			}
 			var parts []string
+			if preds := c.LA[ri]; len(preds) > 0 {
+				var ps []string
+				for _, p := range preds {
+					if p < 0 {
+						ps = append(ps, "!"+g.symName(-1-p))
+					} else {
+						ps = append(ps, g.symName(p))
+					}
+				}
+				parts = append(parts, "(?= "+strings.Join(ps, " & ")+")")
+			}
 			for _, s := range r.R {
 				parts = append(parts, sym(s))
 			}
@@ -542,10 +576,16 @@ func newC15Oracle(c *c15Case) *c15Oracle {
 			visitExpr(c.RuleSets[nt-(g.T+g.N-len(c.RuleSets))].Expr, map[*sExpr]bool{})
 			continue
 		}
-		for _, r := range o.rules {
+		for ri, r := range o.rules {
 			if r.L == nt {
 				for _, s := range r.R {
 					push(s)
+				}
+				for _, p := range c.LA[ri] {
+					if p < 0 {
+						p = -1 - p
+					}
+					push(p)
 				}
 			}
 		}
@@ -756,7 +796,7 @@ func seq(lo, hi int) []int {
 func TestC15(t *testing.T) {
 	p := &prop[c15Case]{
 		ID:   "C15",
-		Rule: "plain context-free grammars (C01 generator: mutated LALR families and random grammars with nullable and unreachable nonterminals, 1..2 inputs, 15% no-eoi) extended with 0..4 `%generate sN = set(...)` directives, 0..2 nonterminals defined as `X: set(...)` and used in 1..2 rules, an occasional %assert, and the 'error' terminal in 1..2 rules; set expressions of depth <= 4 over any/first/last/follow/precede of terminals (incl. eoi) and nonterminals, references to named sets (forward, backward, self), |, & and ~. Compiled with compiler.Compile; Grammar.Sets, the rules of set nonterminals and afterErr/IsRecovering are compared with an independent stratified least-fixpoint evaluation over the rules reachable from the first end-of-input input (complement relative to all terminals of the compiled grammar); a complement inside a dependency cycle must be rejected with the documented message and nothing else may be. Non-trivial: a named set that is neither empty nor everything, a non-empty rule set, afterErr, or a rejected complement cycle; distinct by case JSON / source.",
+		Rule: "plain context-free grammars (C01 generator: mutated LALR families and random grammars with nullable and unreachable nonterminals, 1..2 inputs, 15% no-eoi) extended with 0..4 `%generate sN = set(...)` directives, 0..2 nonterminals defined as `X: set(...)` and used in 1..2 rules, an occasional %assert, the 'error' terminal in 1..2 rules, and in a quarter of the cases 1..2 rules starting with a lookahead `(?= A & !B)` (the nonterminals it mentions are reachable through it); set expressions of depth <= 4 over any/first/last/follow/precede of terminals (incl. eoi) and nonterminals, references to named sets (forward, backward, self), |, & and ~. Compiled with compiler.Compile; Grammar.Sets, the rules of set nonterminals and afterErr/IsRecovering are compared with an independent stratified least-fixpoint evaluation over the rules reachable from the first end-of-input input (complement relative to all terminals of the compiled grammar); a complement inside a dependency cycle must be rejected with the documented message and nothing else may be. Non-trivial: a named set that is neither empty nor everything, a non-empty rule set, afterErr, or a rejected complement cycle; distinct by case JSON / source.",
 		Assume: []string{"set nonterminals count as non-nullable while sets are resolved (syntax/nullable.go), also when the set turns out empty", "%assert directives are not enforced by the compiler at this commit; they are generated only to make sure they do not disturb resolution"},
 		Quick:  16000, Thorough: 600000,
 		Gen:   c15Gen,
